@@ -29,6 +29,8 @@ type RC struct {
 	wrappers  map[*FuncInfo]bool
 	sendSites []*SendSite
 	kindCache map[string][]string
+	epochCl   map[*FuncInfo]bool
+	builderCl map[*FuncInfo]bool
 }
 
 var apiNames = []string{"Start", "Reset", "OnReceive", "OnTimeout", "OnTransaction", "OnNewTransaction"}
@@ -271,6 +273,40 @@ func hasKind(ks []string, k string) bool {
 		}
 	}
 	return false
+}
+
+// inEpoch: fn belongs to the epoch-writer cluster (the epoch writer and the private helpers carved out of it).
+func (c *RC) inEpoch(fn *FuncInfo) bool {
+	if c.A.epochWriter == nil {
+		return false
+	}
+	if c.epochCl == nil {
+		c.epochCl = c.A.cluster(c.A.epochWriter)
+	}
+	return c.epochCl[fn]
+}
+
+// epochSites: recorded sites of every function of the epoch-writer cluster.
+func (c *RC) epochSites() []*Site {
+	var out []*Site
+	for _, fn := range c.Prog.dbftFuncs() {
+		if c.inEpoch(fn) {
+			out = append(out, c.A.FnSites[fn]...)
+		}
+	}
+	return out
+}
+
+// epochDemand proves requirements about the epoch writer's view parameter: residuals of helper functions are pushed
+// to their call sites inside the cluster and must be established before the cluster is left.
+func (c *RC) epochDemand() *Demand {
+	return c.A.newDemand([]*FuncInfo{c.A.epochWriter})
+}
+
+func (c *RC) viewIsZero() *Formula {
+	vp := mkTerm(KParam, c.A.epochViewParm.Name())
+	vp.Unsigned = true
+	return eq(vp, tZero)
 }
 
 // sitesWhere selects recorded sites of package dbft.
